@@ -1090,9 +1090,15 @@ func (ex *Exec) instr(fr *Frame, ins ssa.Instruction, pred *ssa.BasicBlock, st *
 		ss := vc.sorts.SortOf(pt)
 		if _, known := vc.sorts.structs[ss]; !known {
 			// field of an opaque (library) struct: a scratch location of its own; writes are not tracked, reads are arbitrary
+			// (an embedded pointer is read as a function of the object: the library sets it when it builds the object)
 			ft := stt.Field(x.Field).Type()
 			vc.cellCtr++
 			c := &Cell{id: vc.cellCtr, frame: fr.id, name: "opaquefield", typ: ft, sort: vc.sorts.SortOf(ft)}
+			if fn := vc.opaqueEmbedded(pt, stt, x.Field); fn != "" {
+				st.cells[c] = tv(Term{app(fn, ex.toTerm(st, base, x.X.Type()).S), c.sort})
+				fr.vals[x] = Val{K: VPtr, P: &Ptr{Kind: PCell, Cell: c, Typ: ft}}
+				return true
+			}
 			st.cells[c] = tv(vc.fresh("opaquefield", c.sort))
 			fr.vals[x] = Val{K: VPtr, P: &Ptr{Kind: PCell, Cell: c, Typ: ft}}
 			return true
@@ -1736,3 +1742,26 @@ func (ex *Exec) assumeIntRange(st *State, t Term, ty types.Type) {
 }
 
 var traceOn = os.Getenv("GOVC_TRACE") != ""
+
+// opaqueEmbedded: the uninterpreted function that reads an embedded pointer field of a library struct ("" for any other
+// field). Assumption: a library object keeps the embedded pointers it was built with.
+func (vc *VC) opaqueEmbedded(structType types.Type, stt *types.Struct, field int) string {
+	f := stt.Field(field)
+	if !f.Embedded() {
+		return ""
+	}
+	if _, ok := f.Type().Underlying().(*types.Pointer); !ok {
+		return ""
+	}
+	if vc.sorts.SortOf(f.Type()) != SRef {
+		return ""
+	}
+	nt, ok := types.Unalias(structType).(*types.Named)
+	if !ok {
+		return ""
+	}
+	fn := "opqf_" + shortTypeName(nt) + "_" + f.Name()
+	vc.declareFun(fn, []string{SRef}, SRef)
+	vc.usedExt["library struct "+shortTypeName(nt)+": the embedded pointer "+f.Name()+" does not change once the object is built (assumed)"] = true
+	return fn
+}
